@@ -88,6 +88,29 @@ def rule_stability(model):
         key = next((k.value for k in n.keywords if k.arg == 'key'), None)
         ok = False
         why = 'no key= (tuples compare their second element on ties)'
+        keys = [key]
+        if isinstance(key, ast.Name):
+            defs = [d for d in model.local_defs(fi, key.id)
+                    if not isinstance(d, (str, tuple))]
+            if defs:
+                keys = defs
+        ok_all = True
+        for key in keys:
+            okk = False
+            if key is not None:
+                sk = norm(key)
+                if sk in ('itemgetter(0)', 'operator.itemgetter(0)',
+                          'lambda x: x[0]', 'lambda t: t[0]') or \
+                        'cmp_to_key' in sk:
+                    okk = True
+                else:
+                    why = f'key {sk} does not select the decorated key'
+            ok_all = ok_all and okk
+        if len(keys) > 1 or isinstance(
+                next((k.value for k in n.keywords if k.arg == 'key'), None),
+                ast.Name):
+            key = None
+            ok = ok_all
         if key is not None:
             s = norm(key)
             if s == 'itemgetter(0)' or s == 'operator.itemgetter(0)' or \
@@ -392,6 +415,39 @@ def rule_direction(model):
                                      for x in ast.walk(s))
                 break
             break
+    if not table:
+        # a dict literal {'asc': k1, 'desc': k2} in the function or at module
+        # level, looked up with .get() and rejected when missing
+        cands = []
+        for n in ast.walk(fi.module.tree):
+            if isinstance(n, ast.Dict) and all(
+                    isinstance(k, ast.Constant) for k in n.keys) and \
+                    {k.value for k in n.keys} == {'asc', 'desc'}:
+                cands.append(n)
+        for dnode in cands:
+            for k, v in zip(dnode.keys, dnode.values):
+                if isinstance(v, ast.UnaryOp) and \
+                        isinstance(v.operand, ast.Constant):
+                    table[k.value] = v.operand.value * (
+                        -1 if isinstance(v.op, ast.USub) else 1)
+                elif isinstance(v, ast.Constant):
+                    table[k.value] = v.value
+        if table:
+            # unknown direction: `x is None` / `not in` followed by raise
+            for n in own_nodes(fi.node):
+                if isinstance(n, ast.If) and (
+                        'is None' in norm(n.test) or
+                        'not in' in norm(n.test)) and any(
+                        isinstance(x, ast.Raise) for x in n.body):
+                    has_else_raise = True
+            # a subscript lookup raises KeyError for unknown directions
+            for n in own_nodes(fi.node):
+                if isinstance(n, ast.Try) and any(
+                        isinstance(x, ast.Raise) for h in n.handlers
+                        for x in ast.walk(h)):
+                    has_else_raise = has_else_raise or any(
+                        'KeyError' in norm(h.type or ast.Name(id=''))
+                        for h in n.handlers)
     r.instance(fi.where, f'table {table}', 'else raises' if has_else_raise
                else 'else falls through')
     if not (isinstance(table.get('asc'), int) and table.get('asc') > 0 and
